@@ -247,10 +247,27 @@ impl MrtInRunner {
                     msg.peer_asn(),
                 );
 
+                // RFC 4271 section 4.3: a prefix listed both as withdrawn and
+                // in the NLRI is to be treated as announced, so the
+                // withdrawals go first.
+                let context = MrtContext {
+                    status: RouteStatus::Withdrawn,
+                    provenance
+                };
+
+                payloads.extend(rr_unreach.into_iter().map(|rr|
+                        Payload::with_received(
+                            rr,
+                            RouteContext::Mrt(context.clone()),
+                            None,
+                            received
+                        )
+                ));
+
                 // or do we need a RouteContext::Fresh here?
                 let context = MrtContext {
                     status: RouteStatus::Active,
-                    provenance
+                    ..context
                 };
 
                 payloads.extend(
@@ -262,20 +279,6 @@ impl MrtInRunner {
                             received,
                         )
                     ));
-
-                let context = MrtContext {
-                    status: RouteStatus::Withdrawn,
-                    ..context
-                };
-
-                payloads.extend(rr_unreach.into_iter().map(|rr|
-                        Payload::with_received(
-                            rr,
-                            RouteContext::Mrt(context.clone()),
-                            None,
-                            received
-                        )
-                ));
                 let update = payloads.into();
                 gate.update_data(update).await;
             }
